@@ -22,5 +22,9 @@ if [ "$prop" = "C19" ]; then
   rm -f .bin/build.$$.log
   export VCHECK_RACE_BIN="/verif/$bin.race"
 fi
+if [ "$tier" = "replay" ]; then
+  "./$bin" -prop "$prop" -replay "$3"
+  exit $?
+fi
 "./$bin" -prop "$prop" -tier "$tier"
 exit $?
